@@ -198,6 +198,24 @@ class Ctx:
         self.samples = []
         self.drift = []            # out-of-domain disagreements (information only)
         self.notes = []
+        # source drift: files of the repository whose AST differs from the tree the model was written against.
+        # It only decides how hard the correspondence / failing-input search looks (never a violation by itself).
+        self.scale = 1
+        self.changed_sources = []
+        try:
+            from . import srcmap
+
+            repo = os.environ.get("VERIF_REPO") or "/repo"
+            self.changed_sources = srcmap.changed(repo)
+            if self.changed_sources:
+                anchored = set(self.changed_sources) & srcmap.anchors(prop)
+                self.scale = 8 if anchored else 3
+                if tier == "quick" and not os.environ.get("VERIF_BUDGET"):
+                    self.budget = 480
+                self.notes.append(f"source drift: {self.changed_sources} differ from srcmap.json "
+                                  f"({'anchored for this property' if anchored else 'not anchored here'}); streams scaled x{self.scale}")
+        except Exception as e:  # noqa: BLE001
+            self.notes.append(f"source fingerprinting unavailable: {e}")
 
     def rng(self, tag=""):
         h = hashlib.sha256(f"{self.prop}|{self.seed}|{tag}".encode()).digest()
@@ -208,6 +226,13 @@ class Ctx:
 
     def quick(self):
         return self.tier == "quick"
+
+    def size(self, q: int, t: int) -> int:
+        """stream size: q in the quick tier, t in the thorough tier; the quick size is scaled up (never beyond t)
+        when the repository's sources differ from the tree the model was written against"""
+        if self.tier != "quick":
+            return t
+        return min(t, q * self.scale)
 
 
 # --------------------------------------------------------------------------------------- streams
@@ -318,6 +343,7 @@ def finish(ctx: Ctx, lean_info: dict, rule: str, extra_assumptions=(), checker_c
         "generated_broken": lean_info.get("generated_broken"),
         "known_findings": ctx.known_lines,
         "notes": ctx.notes,
+        "changed_sources": ctx.changed_sources,
         "lean_build_s": lean_info.get("build_s"),
     }
     ev = {
